@@ -5,7 +5,9 @@ tie: V (the proved certificate checker kkt_ok decides optimality of every real s
 the active forest of the REAL solver's final state, never from its stale lm fields; fall-backs: the model's forest,
 exact active-set enumeration for n<=5, the proved duality-gap bound) + C (model vs implementation, as in C01).
 Histories include re-solves after Variable::weight was changed on the live solver (op W, the pin / lock idiom): the
-certificate uses the weights in force at that solve; model Vpsc/VpscModelW.v, invariant preservation Vpsc/VpscWeight.v."""
+certificate uses the weights in force at that solve; model Vpsc/VpscModelW.v, invariant preservation Vpsc/VpscWeight.v.
+Directed family mean-preserving re-solve (vlib/c01lib.gen_mp_histories, DESIGN 9.19): re-solves after the desired positions of a
+block of the RETURNED partition moved with its weighted mean exactly preserved (Block::posn bit-identical, multipliers changed)."""
 import os, json
 from fractions import Fraction as Fr
 from vlib import common as C
@@ -184,6 +186,7 @@ def run(tier):
     # ---- decide
     reported = 0
     known_hits = 0
+    rep_by_set = {}
     for ins, v in viols:
         fp = None
         if 'optimum' in v or 'gap_bound' in v:
@@ -199,7 +202,8 @@ def run(tier):
             known_hits += 1
             res.violation(v, fingerprint=fp)
             continue
-        if reported < 3:
+        if reported < 3 and rep_by_set.get(v.get('set'), 0) < 2:      # at most 2 per set: a failing corpus does not hide what the generators found
+            rep_by_set[v.get('set')] = rep_by_set.get(v.get('set'), 0) + 1
             try:
                 small = L.shrink(ins, L.c02_fails(v['impl']), budget=150) if 'twin_of' not in ins else ins
                 v['minimised_replay_input'] = L.replay_text(small)
@@ -297,6 +301,10 @@ META = {
     'level_note': 'Trusted: Coq kernel; extraction + OCaml driver (its optimum-proposing helpers are unverified but every proposal passes the proved kkt_ok); C++ harness; '
                   'exact-rational model of binary64. Not proved: that solve() never gives up after MAXTRIES = 100 passes (in that case only feasibility of the returned '
                   'state is guaranteed: C02_solve_exit_guarantee names the two exits); termination; '
-                  'variable-order independence is checked on permuted twins and follows from uniqueness only informally (constraint-order independence is proved).',
+                  'variable-order independence is checked on permuted twins and follows from uniqueness only informally (constraint-order independence is proved). '
+                  'Re-solve coverage: besides random moves of single desired positions, the directed family mean-preserving re-solve (sets mp-resolve-*, corpus/c02_mean_preserving.txt, '
+                  'DESIGN 9.19) moves the desired positions of whole blocks of the partition the real solver returned by weighted-zero-sum dyadic perturbations, so that '
+                  'Block::posn keeps its value bit for bit while the multipliers change sign - the case in which any shortcut keyed on the block position goes wrong; '
+                  'weights / scales != 1, several blocks at once, up to 3 rounds, solve() and satisfy() passes, both copies of the solver.',
     'technique': 'Coq proof of a certificate checker (certifying-algorithm validation of every real solve() result) + refutation witness + extracted-model correspondence',
 }
